@@ -14,7 +14,7 @@ func init() {
 		ID: "C10", Fn: c10,
 		Rule:        "repetition: games produced by refchess with constructed cycles (reversible move pairs repeated, interleaved, perturbed by rights loss, double pushes, irreversible moves, FEN clocks 40-99, FEN starts carrying an ep square); at every ply CheckRepetitions(n), n=1..4, compared with the count of earlier identical (placement, side, rights, ep) records, and HalfMoveClock with the rule count; material: exhaustive enumeration of all multisets of <=3 extra pieces per side (P,N,B-light,B-dark,R,Q) on random legal placements with the three-valued oracle must-report / must-not-report / free; distinct = distinct (game record prefix) identities + material signatures",
 		Assumptions: []string{"refchess game record is the reference; material classes exactly as worded in C10, everything else is not judged"},
-		Required:    []string{"plies", "rep_ge1_plies", "rep_ge2_plies", "rep_ge3_plies", "games_beyond_512_plies", "cycles_with_rights_loss", "cycles_with_double_push", "lookalike_different_ep", "fen_clock_games", "material_signatures", "material_must_report", "material_must_not", "material_free", "games_with_ep_start"},
+		Required:    []string{"plies", "rep_ge1_plies", "rep_ge2_plies", "rep_ge3_plies", "games_beyond_512_plies", "material_by_play_checks", "cycles_with_rights_loss", "cycles_with_double_push", "lookalike_different_ep", "fen_clock_games", "material_signatures", "material_must_report", "material_must_not", "material_free", "games_with_ep_start"},
 		MinEvals:    10000,
 	})
 }
@@ -397,6 +397,90 @@ func c10material(c *Ctx) {
 				if class == "must-not" && got {
 					rep.Viol("material:reported:"+sig, fmt.Sprintf("HasInsufficientMaterial()=true for %s (%s)", sig, bd.FEN()), map[string]interface{}{"fen": bd.FEN(), "signature": sig})
 				}
+			}
+		}
+	}
+	// the same rule on positions reached by play on one long-lived object: trade-down games
+	// from boards crowded with heavy pieces (captures by king and pawns preferred) down to a
+	// few pieces, judged after every ply once at most six pieces are left
+	nTrade := c.Size(200, 8000)
+	for ti := 0; ti < nTrade; ti++ {
+		if !c.Mine(ti) {
+			continue
+		}
+		tr := SubRng(c.Seed, "c10/trade", ti)
+		b := heavyPosition(tr)
+		p := engPos(b.FEN())
+		var played []string
+		start := b.FEN()
+		for ply := 0; ply < 160; ply++ {
+			ms := b.Legal()
+			if len(ms) == 0 {
+				break
+			}
+			var kp, caps []rc.Move
+			for _, m := range ms {
+				if b.Sq[m.To] != 0 {
+					caps = append(caps, m)
+					if pc := b.Sq[m.From]; pc == 'K' || pc == 'k' {
+						kp = append(kp, m)
+					}
+				}
+			}
+			m := ms[tr.Intn(len(ms))]
+			if len(kp) > 0 && tr.Chance(0.9) {
+				m = kp[tr.Intn(len(kp))]
+			} else if len(caps) > 0 && tr.Chance(0.9) {
+				m = caps[tr.Intn(len(caps))]
+			}
+			p.DoMove(toEng(m))
+			b = b.Apply(m)
+			played = append(played, m.UCI())
+			var w, bl []string
+			n := 0
+			for sq, pc := range b.Sq {
+				k := ""
+				switch pc {
+				case 'P', 'p':
+					k = "P"
+				case 'N', 'n':
+					k = "N"
+				case 'R', 'r':
+					k = "R"
+				case 'Q', 'q':
+					k = "Q"
+				case 'B', 'b':
+					k = "D"
+					if (rc.File(sq)+rc.Rank(sq))%2 == 1 {
+						k = "L"
+					}
+				}
+				if k == "" {
+					continue
+				}
+				n++
+				if pc < 'a' {
+					w = append(w, k)
+				} else {
+					bl = append(bl, k)
+				}
+			}
+			if n > 4 {
+				continue
+			}
+			rep.Eval(1)
+			rep.Inc("material_by_play_checks")
+			class := classifyMaterial(w, bl)
+			got := p.HasInsufficientMaterial()
+			sig := "K" + strings.Join(w, "") + "vK" + strings.Join(bl, "")
+			if class == "must" && !got {
+				rep.Viol("material:not-reported:by-play:"+sig, fmt.Sprintf("HasInsufficientMaterial()=false for the dead material %s reached by play (%s)", sig, b.FEN()), map[string]interface{}{"start": start, "moves": append([]string(nil), played...), "fen": b.FEN()})
+			}
+			if class == "must-not" && got {
+				rep.Viol("material:reported:by-play:"+sig, fmt.Sprintf("HasInsufficientMaterial()=true for %s reached by play (%s)", sig, b.FEN()), map[string]interface{}{"start": start, "moves": append([]string(nil), played...), "fen": b.FEN()})
+			}
+			if n == 0 {
+				break
 			}
 		}
 	}
